@@ -2,6 +2,7 @@
 package sm9
 
 import (
+	"bytes"
 	"crypto"
 	goSubtle "crypto/subtle"
 	"errors"
@@ -275,8 +276,9 @@ func (priv *EncryptPrivateKey) NewKeyExchange(uid, peerUID []byte, keyLen int, g
 	ke.genSignature = genSignature
 	ke.keyLength = keyLen
 	ke.privateKey = priv
-	ke.uid = uid
-	ke.peerUID = peerUID
+	// the object outlives the call: keep copies, not the caller's slices
+	ke.uid = bytes.Clone(uid)
+	ke.peerUID = bytes.Clone(peerUID)
 	return ke
 }
 
@@ -313,7 +315,7 @@ func (ke *KeyExchange) InitKeyExchange(rand io.Reader, hid byte) ([]byte, error)
 		return nil, err
 	}
 	initKeyExchange(ke, hid, r)
-	return ke.secret, nil
+	return bytes.Clone(ke.secret), nil
 }
 
 func (ke *KeyExchange) sign(isResponder bool, prefix byte) []byte {
@@ -370,7 +372,7 @@ func respondKeyExchange(ke *KeyExchange, hid byte, r *bigmod.Nat, rA []byte) ([]
 	if err != nil || !rP.IsOnCurve() {
 		return nil, nil, errors.New("sm9: invalid initiator's ephemeral public key")
 	}
-	ke.peerSecret = rA
+	ke.peerSecret = bytes.Clone(rA)
 	pubA := ke.privateKey.GenerateUserPublicKey(ke.peerUID, hid)
 	ke.r = r
 	rBytes := r.Bytes(orderNat)
@@ -395,10 +397,10 @@ func respondKeyExchange(ke *KeyExchange, hid byte, r *bigmod.Nat, rA []byte) ([]
 	ke.g2 = g2
 
 	if !ke.genSignature {
-		return ke.secret, nil, nil
+		return bytes.Clone(ke.secret), nil, nil
 	}
 
-	return ke.secret, ke.sign(true, 0x82), nil
+	return bytes.Clone(ke.secret), ke.sign(true, 0x82), nil
 }
 
 // RespondKeyExchange when responder receive rA, for responder's step B1-B7
@@ -422,7 +424,7 @@ func (ke *KeyExchange) ConfirmResponder(rB, sB []byte) ([]byte, []byte, error) {
 		return nil, nil, errors.New("sm9: invalid responder's ephemeral public key")
 	}
 	// step 5
-	ke.peerSecret = rB
+	ke.peerSecret = bytes.Clone(rB)
 	g1, err := ke.privateKey.EncryptMasterPublicKey.ScalarBaseMult(ke.r.Bytes(orderNat))
 	if err != nil {
 		return nil, nil, err
